@@ -127,7 +127,11 @@ class Client(object):
         self.profile = prof
         self.app = self.stack.getLayer(-1)
         self.inbox = queue.Queue()
-        self.idle = threading.Event()
+        self.cond = threading.Condition()
+        self.waiting = False      # the network thread is blocked waiting for the next command
+        self.posted = 0           # commands handed to the thread
+        self.taken = 0            # commands the thread has picked up
+        self.dead = False
         self.disp = None
         self.thread = threading.Thread(target=self._run, daemon=True, name="net-%s-%d" % (self.phone, self.generation))
         self.thread.start()
@@ -164,16 +168,24 @@ class Client(object):
                 elif cmd[0] == "call":
                     cmd[1]()
                 elif cmd[0] == "stop":
-                    self.idle.set()
+                    with self.cond:
+                        self.dead = True
+                        self.cond.notify_all()
                     return
         except BaseException as e:  # noqa
             self.errors.append(("net_thread_died", repr(e), traceback.format_exc()[-800:]))
-            self.idle.set()
+            with self.cond:
+                self.dead = True
+                self.cond.notify_all()
 
     def _get(self):
-        self.idle.set()
+        with self.cond:
+            self.waiting = True
+            self.cond.notify_all()
         item = self.inbox.get()
-        self.idle.clear()
+        with self.cond:
+            self.waiting = False
+            self.taken += 1
         return item
 
     def _pump(self):
@@ -210,19 +222,20 @@ class Client(object):
     # ---- harness side
     def post(self, *cmd):
         envkit_home(self.home)      # one client runs at a time; its profile directory is the process-wide config home meanwhile
+        with self.cond:
+            self.posted += 1
         self.inbox.put(cmd)
         self.wait_idle()
 
     def wait_idle(self):
-        t0 = time.time()
-        while True:
-            if not self.idle.wait(IDLE_TIMEOUT):
-                raise HarnessError("client %s did not become idle within %ds (inconclusive)" % (self.jid, IDLE_TIMEOUT))
-            if self.inbox.empty() and self.idle.is_set():
-                return
-            if time.time() - t0 > IDLE_TIMEOUT:
-                raise HarnessError("client %s did not become idle within %ds (inconclusive)" % (self.jid, IDLE_TIMEOUT))
-            time.sleep(0.0002)
+        """returns when the network thread has picked up every posted command and is waiting for the next one"""
+        deadline = time.time() + IDLE_TIMEOUT
+        with self.cond:
+            while not (self.dead or (self.waiting and self.taken == self.posted)):
+                left = deadline - time.time()
+                if left <= 0:
+                    raise HarnessError("client %s did not become idle within %ds (inconclusive)" % (self.jid, IDLE_TIMEOUT))
+                self.cond.wait(left)
 
     def connect(self):
         self.post("connect")
